@@ -153,6 +153,7 @@ class Ctx:
         self.actions = {}
         self.mc_runs = []
         self.violations = []
+        self.infra = []
         self.known_hits = []
         self.notes = []
         self.uncovered = []
@@ -376,7 +377,13 @@ class Ctx:
             f.write("\n")
         self.log("done: states=%d traces_ok=%d replays_ok=%d violations=%d known=%d" %
                  (self.states, self.traces_ok, self.replays_ok, len(self.violations), len(self.known_hits)))
-        return 1 if self.violations else 0
+        if self.violations:
+            return 1
+        if self.infra:
+            for x in self.infra:
+                print("INFRA-ERROR property=%s: %s" % (self.pid, x), flush=True)
+            return 2
+        return 0
 
 
 def load_known(pid):
@@ -403,6 +410,32 @@ def run_harness(exe, args, timeout=600, env=None, stdin=None, cwd=None):
     if env:
         e.update(env)
     return sh([exe] + [str(a) for a in args], timeout=timeout, env=e, stdin=stdin, cwd=cwd)
+
+
+def sanitize_trace(trace_path):
+    """A driver that dies while writing leaves a partial last line (or interleaved garbage): replace every line that is not
+    a JSON object by a Fault event, so that TLC rejects the trace at that point instead of failing to read the file."""
+    bad = 0
+    out = []
+    with open(trace_path, "rb") as f:
+        for raw in f:
+            line = raw.decode("utf-8", "replace").rstrip("\n")
+            if not line.strip():
+                continue
+            ok = line.startswith("{") and line.endswith("}")
+            if ok:
+                try:
+                    ok = isinstance(json.loads(line), dict)
+                except Exception:
+                    ok = False
+            if not ok:
+                bad += 1
+                line = '{"e":"Fault","kind":"garbled","what":%s}' % json.dumps(line[:120])
+            out.append(line)
+    if bad:
+        with open(trace_path, "w") as f:
+            f.write("\n".join(out) + "\n")
+    return bad
 
 
 def count_execs(trace_path):
@@ -470,9 +503,14 @@ def record_and_validate(ctx, exe, args, trace_path, spec_dir, tla, cfg, what, ti
     (Reset-delimited) is saved as the replay file."""
     rc, out = run_harness(exe, args, timeout=timeout, env=env)
     if rc == 124:
-        raise Infra("harness timeout (%s)\n%s" % (what, out[-2000:]))
+        # e.g. a sanitizer runtime that deadlocks while reporting: not a verdict. Remember it and go on with the other parts of
+        # the check; the run ends with exit 2 unless another part reports a violation.
+        ctx.infra.append("harness timeout (%s): %s" % (what, out[-600:]))
+        ctx.log("INFRA: harness timeout (%s) - continuing" % what)
+        return False, 0
     if not os.path.exists(trace_path):
         raise Infra("harness wrote no trace (%s) rc=%d\n%s" % (what, rc, out[-2000:]))
+    sanitize_trace(trace_path)
     n_exec = count_execs(trace_path)
     fault = None
     if rc not in harness_ok_rc:
